@@ -260,7 +260,7 @@ pub fn generate(seed: u64) -> Scenario {
                 s.nargs = *r.pick(&wrong);
             }
             2 => s.missing_env.push((*r.pick(&MANDATORY_ENV)).to_string()),
-            3 => s.desc = DescKind::Unsupported((*r.pick(&["0.9", "0.11", "1.0", "0.1", "0.100", "10.0"])).to_string()),
+            3 => s.desc = DescKind::Unsupported((*r.pick(&["0.9", "0.11", "1.0", "0.1", "0.100", "10.0", "1.10", "2.10", "7.10"])).to_string()),
             4 => s.desc = DescKind::NonNumeric((*r.pick(&["abc", "0.x", "", "0.10.1", "-1", "0,10", " "])).to_string()),
             5 => s.desc = if r.bool() { DescKind::MissingKey } else { DescKind::MissingFile },
             6 => s.desc = DescKind::InvalidBeyondApi,
